@@ -155,7 +155,7 @@ mod static_sel {
         let _ = (a, b);
         4343
     }
-    //@ h=body_static props=C07 cfgs=K6s tier=q t=600 submod=static_sel | funcs: dist_body::distance_32/64 with compile-time backend selection (feature simd without detect-features, default x86_64 target features) | bound: all argument pairs: the entry points call the SSE2 backend (whose correctness is k_sse2_*) | stubs: x86_sse2::distance_32/64 -> tagging stubs
+    //@ h=body_static props=C02,C07,C08 cfgs=K6s tier=q t=600 submod=static_sel | funcs: dist_body::distance_32/64 with compile-time backend selection (feature simd without detect-features, default x86_64 target features) | bound: all argument pairs: the entry points call the SSE2 backend (whose correctness is k_sse2_*) | stubs: x86_sse2::distance_32/64 -> tagging stubs
     #[kani::proof]
     #[kani::unwind(4)]
     #[kani::stub(super::super::x86_sse2::distance_32, t32)]
